@@ -240,13 +240,16 @@ Ltac rule_tac := first [ apply rule_sem_of_bool; reflexivity | apply rule_sem_fi
 Lemma tables_sem : rows_sem server_decoder /\ rows_sem client_decoder.
 Proof. split; (split; [cbn [dc_classes server_decoder client_decoder]; repeat (constructor; [cbn [cr_rule]; rule_tac|]); constructor | cbn; rule_tac]). Qed.
 
-Definition known_rules (dc : decoder_code) : Prop := dc = server_decoder \/ dc = client_decoder.
+(* a decoder table all of whose size rules return at least 4 (true of both regenerated tables and
+   of any sub-table of them) *)
+Definition known_rules (dc : decoder_code) : Prop := rows_sem dc.
+
+Lemma known_server : known_rules server_decoder. Proof. exact (proj1 tables_sem). Qed.
+Lemma known_client : known_rules client_decoder. Proof. exact (proj2 tables_sem). Qed.
 
 Lemma size_ge4 dc fc data n : known_rules dc ->
   frame_size (lookup_rule dc fc) data = Ok n -> 4 <= n.
-Proof.
-  intros [-> | ->] H; eapply lookup_rule_sem; try exact H; apply tables_sem.
-Qed.
+Proof. intros Hk H. eapply lookup_rule_sem; [exact Hk|exact H]. Qed.
 
 (* ------------------------------------------------------------------ buildPacket *)
 
@@ -1146,7 +1149,7 @@ Lemma rtu_loop_backlog cfg : cf_rules cfg = server_decoder -> forall fuel st acc
   wfb (r_buf st) = true -> hdr_bounded (r_hdr st) ->
   rtu_loop fuel cfg st acc = (st', ds, FOk) -> zlen (r_buf st') < 268 /\ hdr_bounded (r_hdr st').
 Proof.
-  intros Hr. assert (Hk : known_rules (cf_rules cfg)) by (left; exact Hr).
+  intros Hr. assert (Hk : known_rules (cf_rules cfg)) by (rewrite Hr; exact known_server).
   induction fuel as [|k IH]; intros st acc st' ds Hw Hh H; cbn [rtu_loop] in H; [discriminate H|].
   destruct (rtu_ready cfg st) as [st1 [[|]|e]] eqn:R; try discriminate H.
   - pose proof (rtu_ready_buf' _ _ _ _ R) as B1. pose proof (rtu_ready_bounded _ _ _ _ Hr Hw Hh R) as Hb1.
